@@ -255,6 +255,14 @@ func towerInput(kind string, depth int) []byte {
 			out = append(out, 0, 0, 0xff, 0xff, 0xff, 0xff)
 		}
 		return append(out, 0x00) // null variant
+	case "literal-operand": // Variant(ExtensionObject(LiteralOperand{Value: Variant(ExtensionObject(...))})): 10 bytes per level
+		// 0x16, TypeID four-byte ns0 id=597 (LiteralOperand_Encoding_DefaultBinary), mask 1, body length, inner Variant
+		out := make([]byte, 0, 10*depth+1)
+		for k := depth; k >= 1; k-- {
+			out = append(out, 0x16, 0x01, 0x00, 0x55, 0x02, 0x01)
+			out = binary.LittleEndian.AppendUint32(out, uint32(1+10*(k-1)))
+		}
+		return append(out, 0x00)
 	}
 	return nil
 }
@@ -431,18 +439,28 @@ func runDecodeCorpus(c *fw.Ctx, mode string) error {
 	}
 
 	// 4. nesting towers
-	depths := []int{1, 10, 100, 1000, 10000, 100000, 1000000, 2 << 20}
-	for _, kind := range []string{"variant", "diag", "datavalue", "variant-array", "extobj"} {
+	// up to 2 MiB (the default message size limit) for every kind, plus one input of 16-25 MiB per kind (limits are
+	// configurable): a decoder that still recurses per level ends with a fatal stack overflow there
+	depths := []int{1, 10, 100, 1000, 10000, 100000, 1000000, 2 << 20, 16 << 20}
+	for _, kind := range []string{"variant", "diag", "datavalue", "variant-array", "extobj", "literal-operand"} {
 		for _, d := range depths {
 			i := idx
 			idx++
 			if !mine(i) {
 				continue
 			}
-			if kind == "extobj" && d > 100000 {
-				continue // the encoding grows by ~16 bytes per level; stay near the 2 MiB default message size
-			}
-			if (kind == "datavalue" && d > 1<<20) || (kind == "variant-array" && d > 400000) {
+			switch {
+			case kind == "extobj" && d == 16<<20:
+				d = 1500000 // 16 bytes per level: 24 MiB
+			case kind == "literal-operand" && d == 16<<20:
+				d = 2500000 // 10 bytes per level: 25 MiB
+			case kind == "datavalue" && d == 16<<20:
+				d = 8 << 20
+			case kind == "variant-array" && d == 16<<20:
+				d = 4 << 20
+			case (kind == "extobj" || kind == "literal-operand") && d > 100000:
+				continue
+			case (kind == "datavalue" && d > 1<<20) || (kind == "variant-array" && d > 400000):
 				continue
 			}
 			tg := variantT
